@@ -12,7 +12,18 @@
 (* A configuration c fixes one call:                                        *)
 (*   variant   "intended"  close errors are propagated                      *)
 (*             "asbuilt"   both closes are deferred, their errors dropped   *)
-(*   target    class of the path (Targets)                                  *)
+(*             "cleaned"   as intended, but the path string is cleaned      *)
+(*                         lexically before the operating system sees it    *)
+(*             "uncollected" as intended, but the result of a staged sink   *)
+(*                         is not collected when the sink is closed         *)
+(*   staged    the buffered writer does not write to the file itself but    *)
+(*             hands its chunks to a stage that writes them behind its back *)
+(*             (a pipe + goroutine, a write-behind cache): a failed file    *)
+(*             write is learnt by the NEXT chunk handed over, or when the   *)
+(*             stage is closed - never by the chunk that failed             *)
+(*   target    class of the path (Targets): what the path leads to AND how  *)
+(*             the string is spelt (components "..", ".", doubled slashes,  *)
+(*             symbolic links on the way / as the last component)           *)
 (*   hdr,dat   per entry: bytes of the local header / of the compressed     *)
 (*             data + descriptor                                            *)
 (*   pass      per entry: bytes the compressor hands down when the data is  *)
@@ -37,12 +48,61 @@ Targets == {"newdir",      \* new file in directories that do not exist yet
             "rodir",       \* directory without write permission
             "rofile",      \* existing file without write permission
             "parentfile",  \* a path component is a regular file
-            "isdir"}       \* the path names a directory
-Regular(t)     == t \in {"newdir", "existing", "resave"}
+            "isdir",       \* the path names a directory
+            \* --- spellings of a path to a new regular file (PathForms below) ---
+            "relative",    \* relative to the working directory, directories do not exist yet
+            "dotdot",      \* a/../b/out: ".." after an existing real directory
+            "unclean",     \* .//a/./b//out: empty and "." components
+            "vialink",     \* link/sub/out: a component is a symbolic link to a directory elsewhere
+            "linkdotdot",  \* link/../out: ".." after a symbolic link: the parent of the link's TARGET, not of the link
+            "linktofile",  \* the last component is a symbolic link to an existing regular file (another package) elsewhere
+            "danglinglink"}\* the last component is a symbolic link (relative target) to a file that does not exist yet
+PathForms      == {"relative", "dotdot", "unclean", "vialink", "linkdotdot", "linktofile", "danglinglink"}
+Regular(t)     == t \in {"newdir", "existing", "resave"} \cup PathForms
 MkdirFails(t)  == t = "parentfile"
 CreateFails(t) == t \in {"rodir", "rofile", "isdir"}
 
-Variants == {"intended", "asbuilt"}
+Variants == {"intended", "asbuilt", "cleaned", "uncollected"}
+
+\* ---- the path string and where it leads ------------------------------------------
+\* A location is the sequence of real directory names from the root of the scratch tree.  A path string is a
+\* sequence of components: a name, a symbolic link to a directory elsewhere, "..", "." / the empty component.
+Nm(n)  == [k |-> "name", n |-> n,      to |-> <<>>]
+Ln(to) == [k |-> "link", n |-> "link", to |-> to]
+Up     == [k |-> "up",   n |-> "..",   to |-> <<>>]
+Dot    == [k |-> "dot",  n |-> ".",    to |-> <<>>]
+\* the directory part of the path of a target class (the last component - the file - is left out)
+DirOf(t) ==
+  CASE t = "dotdot"     -> <<Nm("a"), Up, Nm("b")>>
+    [] t = "unclean"    -> <<Dot, Dot, Nm("a"), Dot, Nm("b"), Dot>>
+    [] t = "vialink"    -> <<Ln(<<"store">>), Nm("sub")>>
+    [] t = "linkdotdot" -> <<Ln(<<"store", "deep", "sub">>), Up>>
+    [] t \in {"relative", "resave"} -> <<Nm("a")>>
+    [] t = "newdir"     -> <<Nm("a"), Nm("b"), Nm("c")>>
+    [] OTHER            -> <<>>
+ButLast(q) == IF q = <<>> THEN q ELSE SubSeq(q, 1, Len(q) - 1)
+\* what the operating system does with the components, one after the other
+RECURSIVE Walk(_, _)
+Walk(loc, p) ==
+  IF p = <<>> THEN loc
+  ELSE LET h == Head(p)
+       IN Walk(CASE h.k = "name" -> Append(loc, h.n)
+                 [] h.k = "link" -> h.to
+                 [] h.k = "up"   -> ButLast(loc)
+                 [] OTHER        -> loc, Tail(p))
+\* what lexical cleaning (filepath.Clean / Abs / Join) makes of them: ".." cancels the component before it, whatever it is
+RECURSIVE CleanPath(_, _)
+CleanPath(acc, p) ==
+  IF p = <<>> THEN acc
+  ELSE LET h == Head(p)
+       IN CleanPath(CASE h.k = "up"  -> ButLast(acc)
+                      [] h.k = "dot" -> acc
+                      [] OTHER       -> Append(acc, h), Tail(p))
+OSLoc(t)    == Walk(<<>>, DirOf(t))                          \* where the string as given leads
+CleanLoc(t) == Walk(<<>>, CleanPath(<<>>, DirOf(t)))         \* where the cleaned string leads
+LexicallySafe(t) == OSLoc(t) = CleanLoc(t)
+\* the directory in which the call creates the file
+CreateLoc(c) == IF c.variant = "cleaned" THEN CleanLoc(c.target) ELSE OSLoc(c.target)
 
 \* ---- arithmetic helpers ---------------------------------------------------
 SumSeq(s) == LET F[i \in 0..Len(s)] == IF i = 0 THEN 0 ELSE F[i - 1] + s[i] IN F[Len(s)]
@@ -55,7 +115,7 @@ N(c) == SumSeq(c.hdr) + SumSeq(c.dat) + c.dir
 
 \* ---- the target ------------------------------------------------------------
 InitFile(c) ==
-  CASE c.target \in {"existing", "rofile", "resave"} -> [kind |-> "old", len |-> N(c) + 1]
+  CASE c.target \in {"existing", "rofile", "resave", "linktofile"} -> [kind |-> "old", len |-> N(c) + 1]
     [] c.target = "device"                 -> [kind |-> "dev", len |-> 0]
     [] c.target = "isdir"                  -> [kind |-> "dir", len |-> 0]
     [] OTHER                               -> [kind |-> "absent", len |-> 0]
@@ -67,10 +127,18 @@ FileWrite(c, f, n) ==
   ELSE IF c.faultAt = NoFault \/ f.len + n <= c.faultAt THEN [f |-> [f EXCEPT !.len = f.len + n], ok |-> TRUE]
   ELSE [f |-> [f EXCEPT !.len = IF c.faultAt > f.len THEN c.faultAt ELSE f.len], ok |-> FALSE]
 
+\* hand n bytes to whatever is below the buffered writer: [f |-> file afterwards, ok |-> as far as the caller
+\* can tell now, late |-> a failure the caller has not been told about is outstanding]
+SinkWrite(c, s, n) ==
+  IF n = 0 THEN [f |-> s.file, ok |-> TRUE, late |-> s.late]
+  ELSE IF ~c.staged THEN LET r == FileWrite(c, s.file, n) IN [f |-> r.f, ok |-> r.ok, late |-> FALSE]
+  ELSE IF s.late THEN [f |-> s.file, ok |-> FALSE, late |-> FALSE]     \* the earlier failure surfaces; nothing more is written
+  ELSE LET r == FileWrite(c, s.file, n) IN [f |-> r.f, ok |-> TRUE, late |-> ~r.ok]
+
 InitSt(c) ==
-  [pc |-> "mkdir", i |-> 1, buf |-> 0, pend |-> 0, prod |-> 0, werr |-> FALSE,
+  [pc |-> "mkdir", i |-> 1, buf |-> 0, pend |-> 0, prod |-> 0, werr |-> FALSE, late |-> FALSE,
    file |-> InitFile(c), zipOpen |-> FALSE, fileOpen |-> FALSE, ser |-> FALSE,
-   err |-> "none", failed |-> FALSE, ret |-> "none"]
+   err |-> "none", failed |-> FALSE, ret |-> "none", loc |-> <<"nowhere">>]
 
 \* ---- the buffered writer (sticky error) ------------------------------------
 \* hand n bytes to the buffered writer; result = state with .ok
@@ -79,15 +147,16 @@ BufWrite(c, s, n) ==
   ELSE IF s.buf + n <= c.B THEN [s |-> [s EXCEPT !.buf = s.buf + n, !.prod = s.prod + n], ok |-> TRUE]
   ELSE LET total == s.buf + n
            keep  == total % c.B
-           r     == FileWrite(c, s.file, total - keep)
-       IN IF r.ok THEN [s |-> [s EXCEPT !.buf = keep, !.file = r.f, !.prod = s.prod + n], ok |-> TRUE]
-          ELSE [s |-> [s EXCEPT !.buf = 0, !.file = r.f, !.werr = TRUE, !.failed = TRUE, !.prod = s.prod + n], ok |-> FALSE]
+           r     == SinkWrite(c, s, total - keep)
+       IN IF r.ok THEN [s |-> [s EXCEPT !.buf = keep, !.file = r.f, !.prod = s.prod + n, !.late = r.late,
+                                        !.failed = s.failed \/ r.late], ok |-> TRUE]
+          ELSE [s |-> [s EXCEPT !.buf = 0, !.file = r.f, !.werr = TRUE, !.failed = TRUE, !.prod = s.prod + n, !.late = r.late], ok |-> FALSE]
 
 BufFlush(c, s) ==
   IF s.werr THEN [s |-> s, ok |-> FALSE]
-  ELSE LET r == FileWrite(c, s.file, s.buf)
-       IN IF r.ok THEN [s |-> [s EXCEPT !.buf = 0, !.file = r.f], ok |-> TRUE]
-          ELSE [s |-> [s EXCEPT !.buf = 0, !.file = r.f, !.werr = TRUE, !.failed = TRUE], ok |-> FALSE]
+  ELSE LET r == SinkWrite(c, s, s.buf)
+       IN IF r.ok THEN [s |-> [s EXCEPT !.buf = 0, !.file = r.f, !.late = r.late, !.failed = s.failed \/ r.late], ok |-> TRUE]
+          ELSE [s |-> [s EXCEPT !.buf = 0, !.file = r.f, !.werr = TRUE, !.failed = TRUE, !.late = r.late], ok |-> FALSE]
 
 \* close the entry being written: the compressor releases what it held back
 ClosePending(c, s) ==
@@ -105,7 +174,7 @@ Step(c, s) ==
          IF CreateFails(c.target)
          THEN [s EXCEPT !.err = "create", !.failed = TRUE, !.pc = "return"]
          ELSE [s EXCEPT !.file = IF c.target = "device" THEN s.file ELSE [kind |-> "new", len |-> 0],
-                        !.fileOpen = TRUE, !.zipOpen = TRUE, !.pc = "serialize"]
+                        !.fileOpen = TRUE, !.zipOpen = TRUE, !.pc = "serialize", !.loc = CreateLoc(c)]
     [] s.pc = "serialize" ->
          IF c.serFault THEN [s EXCEPT !.err = "serialize", !.pc = "closezip"]
          ELSE [s EXCEPT !.ser = TRUE, !.pc = "entry"]
@@ -123,9 +192,13 @@ Step(c, s) ==
          LET a == ClosePending(c, s)
              b == IF a.ok THEN BufWrite(c, a.s, c.dir) ELSE a
              f == IF b.ok THEN BufFlush(c, b.s) ELSE b
-             t == [f.s EXCEPT !.zipOpen = FALSE, !.pc = "closefile"]
+             t == [f.s EXCEPT !.zipOpen = FALSE, !.pc = "closesink"]
          IN IF f.ok \/ c.variant = "asbuilt" THEN t
             ELSE [t EXCEPT !.err = FirstErr(s, "closezip")]
+    [] s.pc = "closesink" -> \* the stage (if any) is closed: it has written what it could; what failed is known now
+         LET t == [s EXCEPT !.late = FALSE, !.pc = "closefile"]
+         IN IF ~s.late \/ c.variant \in {"asbuilt", "uncollected"} THEN t
+            ELSE [t EXCEPT !.err = FirstErr(s, "closesink")]
     [] s.pc = "closefile" ->
          LET t == [s EXCEPT !.fileOpen = FALSE, !.pc = "return"]
          IN IF ~c.closeFault THEN t
@@ -135,14 +208,15 @@ Step(c, s) ==
          [s EXCEPT !.ret = IF s.err = "none" THEN "nil" ELSE "err", !.pc = "done"]
     [] OTHER -> s
 
-\* run the protocol to its end (at most 2*entries + 7 steps)
+\* run the protocol to its end (at most 2*entries + 8 steps)
 RECURSIVE RunFrom(_, _)
 RunFrom(c, s) == IF s.pc = "done" THEN s ELSE RunFrom(c, Step(c, s))
 Run(c) == RunFrom(c, InitSt(c))
 
 \* ---- what "complete and faithful" means in the model -------------------------
-\* the file holds the whole byte stream of the serialised parts, nothing is still open
+\* the file THE GIVEN STRING LEADS TO holds the whole byte stream of the serialised parts, nothing is still open
 Complete(c, s) == /\ s.file.kind = "new" /\ s.file.len = N(c)
+                  /\ s.loc = OSLoc(c.target)
                   /\ s.ser /\ s.i = NEnt(c) + 1
                   /\ ~s.fileOpen /\ ~s.zipOpen
 
@@ -152,7 +226,9 @@ WritesFail(c) == \/ ~Regular(c.target)
 ExpRet(c) == IF WritesFail(c) \/ c.closeFault \/ c.serFault THEN "err" ELSE "nil"
 
 \* the most that can still be missing from the file when the zip writer is closed
-TailBytes(c) == c.dir + c.B + MaxSeq(c.dat)
+\* (a stage delays the news until the chunk AFTER the one that failed has been handed over)
+MaxChunk(c)  == IF MaxSeq(c.dat) > MaxSeq(c.hdr) THEN MaxSeq(c.dat) ELSE MaxSeq(c.hdr)
+TailBytes(c) == IF c.staged THEN c.dir + 2 * c.B + 2 * MaxChunk(c) ELSE c.dir + c.B + MaxSeq(c.dat)
 
 \* =========================================================================
 \* The judge's side: one observed call of a save entry point.
@@ -163,6 +239,9 @@ TailBytes(c) == c.dir + c.B + MaxSeq(c.dat)
 \*   the serialisation just after an unlimited call instead, so that no ToBytes precedes the call),
 \*   e.n0, e.dirstart, e.cmax: length, start of the central directory and largest compressed
 \*   entry of an unfaulted save of the same document (sizes vary a little from call to call)
+\*   e.conc: number of OTHER documents that were being saved (each by its own goroutine, to its own
+\*   path, again and again) while this call ran; 0 = the call ran alone.  What a call owes its caller
+\*   does not depend on it: every call is judged by the same rule, e.conc only labels the witness.
 \* =========================================================================
 BufSize  == 4096      \* archive/zip wraps the file in a bufio.Writer of the default size
 FlateMax == 70000     \* compress/flate holds back at most one block (64 KiB of input) + its header
@@ -191,7 +270,7 @@ Phase(e) ==
             THEN "fault-before-close" ELSE "fault-at-close"
 
 Viol_Save(e) ==
-  LET who == <<e.via, e.target>> IN
+  LET who == IF e.conc > 0 THEN <<e.via, e.target, "concurrent-saves-of-other-documents">> ELSE <<e.via, e.target>> IN
   IF e.ret = "panic" THEN {who \o <<"panic">>}
   ELSE
        (IF e.ret = "ok" /\ ~e.complete THEN {who \o <<"ret-nil", "file-incomplete", Phase(e)>>} ELSE {})
